@@ -413,3 +413,18 @@ def run(ctx: Context) -> None:  # noqa: F811
     ctx.rep.rule('C15.R7', 'the exception-mapping helper has exactly the meaning the analysis assumes, and no context manager of the package suppresses exceptions')
     support.mapping_helper_faithful(ctx, 'C15.R7')
     support.exits_never_suppress(ctx, 'C15.R7')
+
+
+
+_core_run_r8 = run
+
+
+def run(ctx: Context) -> None:  # noqa: F811
+    _core_run_r8(ctx)
+    from . import c14
+
+    if ctx.rep._borrow is not None:
+        return          # already running as a lender: no chains
+    with ctx.rep.borrow({"C14.R2": ("C15.R8", "the internal retry signal ConnectionNotAvailable is raised after request data was sent only for a stream STRICTLY above the GOAWAY's last-stream-id "
+                                               "(the one input for which its escape during a body read is the listed finding KF4) - any wider test lets it reach the caller for streams the server accepted:")}):
+        c14.run(ctx)
